@@ -293,7 +293,24 @@ func (g *gen) newHolder() string {
 	return g.pick(accts)
 }
 
+// next returns the next transaction: usually one message, sometimes several messages in one transaction
 func (g *gen) next() (M, []bool) {
+	if g.p(0.07) {
+		k := 2 + g.r.Intn(2)
+		var ms []any
+		for i := 0; i < k; i++ {
+			m, _ := g.next1()
+			ms = append(ms, m)
+		}
+		if g.p(0.5) { // a last message that is refused discards the effects of the earlier ones
+			ms = append(ms, M{"type": "AcceptOwner", "from": g.pick(accts)})
+		}
+		return M{"type": "Batch", "msgs": ms}, []bool{g.r.Intn(12) != 0, g.r.Intn(12) != 0, g.r.Intn(12) != 0, true, true, true}
+	}
+	return g.next1()
+}
+
+func (g *gen) next1() (M, []bool) {
 	user := g.pick(accts)
 	var m M
 	switch x := g.r.Intn(100); {
@@ -440,6 +457,8 @@ func (g *gen) absorb(ev M) {
 		g.inbox = append(g.inbox, m)
 	}
 }
+
+func init() { _ = fmt.Sprint }
 
 // jsonRoundTrip normalises Go values (ints, M) into what encoding/json would produce on re-reading.
 func jsonRoundTrip(v any) M {
